@@ -3,9 +3,13 @@ package c18
 import (
 	"context"
 	"fmt"
+	"runtime"
 	"sort"
 	"strings"
+	"sync"
+	"sync/atomic"
 
+	metav1 "k8s.io/apimachinery/pkg/apis/meta/v1"
 	"k8s.io/apimachinery/pkg/types"
 
 	kaiv2 "github.com/NVIDIA/KAI-scheduler/pkg/apis/scheduling/v2alpha2"
@@ -16,11 +20,13 @@ import (
 // ---- string interning: long / non-printable strings are let-bound once per case
 
 type intern struct {
-	names map[string]string
-	order []string
+	names   map[string]string
+	order   []string
+	pgNames map[string]string // PodGroup record term -> let-bound name (most events see the same PodGroup again)
+	pgOrder []string
 }
 
-func newIntern() *intern { return &intern{names: map[string]string{}} }
+func newIntern() *intern { return &intern{names: map[string]string{}, pgNames: map[string]string{}} }
 
 func (in *intern) S(s string) string {
 	t := u.Str(s)
@@ -41,6 +47,9 @@ func (in *intern) Wrap(term string) string {
 	b.WriteString("(")
 	for i, s := range in.order {
 		fmt.Fprintf(&b, "let s%d := %s in ", i, u.Str(s))
+	}
+	for i, t := range in.pgOrder {
+		fmt.Fprintf(&b, "let g%d := %s in ", i, t)
 	}
 	b.WriteString(term)
 	b.WriteString(")")
@@ -140,10 +149,20 @@ func (in *intern) pg(g *kaiv2.PodGroup) string {
 		sgs = "(Some " + u.List(xs) + ")"
 	}
 	t := g.Spec.TopologyConstraint
-	return fmt.Sprintf("{| pg_labels := %s; pg_annots := %s; pg_owners := %s; sp_min := %s; sp_queue := %s; sp_prio := %s; sp_preempt := %s; sp_mark := %s; sp_backoff := %s; sp_subgroups := %s; sp_topo := {| t_preferred := %s; t_required := %s; t_topology := %s |} |}",
+	return in.bindPg(fmt.Sprintf("{| pg_labels := %s; pg_annots := %s; pg_owners := %s; sp_min := %s; sp_queue := %s; sp_prio := %s; sp_preempt := %s; sp_mark := %s; sp_backoff := %s; sp_subgroups := %s; sp_topo := {| t_preferred := %s; t_required := %s; t_topology := %s |} |}",
 		in.osmap(g.Labels), in.osmap(g.Annotations), u.List(owners), u.Z(int64(g.Spec.MinMember)), in.S(g.Spec.Queue),
 		in.S(g.Spec.PriorityClassName), in.S(string(g.Spec.Preemptibility)), mark, backoff, sgs,
-		in.S(t.PreferredTopologyLevel), in.S(t.RequiredTopologyLevel), in.S(t.Topology))
+		in.S(t.PreferredTopologyLevel), in.S(t.RequiredTopologyLevel), in.S(t.Topology)))
+}
+
+func (in *intern) bindPg(term string) string {
+	if n, ok := in.pgNames[term]; ok {
+		return n
+	}
+	n := fmt.Sprintf("g%d", len(in.pgOrder))
+	in.pgNames[term] = n
+	in.pgOrder = append(in.pgOrder, term)
+	return n
 }
 
 func (in *intern) opg(g *kaiv2.PodGroup) string {
@@ -186,18 +205,66 @@ func (f *Foreign) quiet() bool {
 	return f.Queue == nil && f.Mark == nil && f.Backoff == nil && f.NodePool == nil && f.QLabel == nil
 }
 
-// OwnerChange removes label / annotation keys from the owner object Idx of the world.
+// OwnerChange edits the owner object Idx of the world: label / annotation keys are removed, and added or
+// changed (Set*: absolute values).
 type OwnerChange struct {
 	Idx                int
 	DelLabels, DelAnns []string
+	SetLabels, SetAnns map[string]string
+}
+
+func (c *OwnerChange) edits() bool { return len(c.SetLabels)+len(c.SetAnns) > 0 }
+
+func (c *OwnerChange) describe() string {
+	xs := []string{}
+	add := func(tag string, m map[string]string) {
+		keys := []string{}
+		for k := range m {
+			keys = append(keys, k)
+		}
+		sort.Strings(keys)
+		for _, k := range keys {
+			xs = append(xs, fmt.Sprintf("%s:%s=%q", tag, k, m[k]))
+		}
+	}
+	add("label", c.SetLabels)
+	add("annot", c.SetAnns)
+	for _, k := range c.DelLabels {
+		xs = append(xs, "-label:"+k)
+	}
+	for _, k := range c.DelAnns {
+		xs = append(xs, "-annot:"+k)
+	}
+	return strings.Join(xs, ",")
+}
+
+// Tamper overwrites grouper-owned fields of the stored PodGroup (somebody edits the object by hand, a
+// controller of another product rewrites it); nil / false = leave alone.
+type Tamper struct {
+	MinMember   *int32
+	Prio        *string
+	Preempt     *string
+	Topology    *string // topology constraint name; also clears the levels
+	DropOwners  bool    // owner references removed
+	OtherOwner  bool    // owner reference replaced by another object's
+	AddSubGroup bool
+	OverLabels  int // so many of the labels the PodGroup carries (other than queue / node-pool) are overwritten ...
+	DelLabels   int // ... removed
+	OverAnnots  int
+	DelAnnots   int
+	desc        []string
 }
 
 type Event struct {
 	Rec     int          // pod index, or -1
-	Target  int          // foreign: index of the pod whose PodGroup is updated
+	Target  int          // foreign / tamper / delete: index of the pod whose PodGroup is meant
 	Foreign *Foreign     // foreign update
-	Own     *OwnerChange // owner object loses keys
+	Own     *OwnerChange // owner object is edited
+	Tamper  *Tamper      // the PodGroup is overwritten
+	Delete  bool         // the PodGroup is deleted
 }
+
+func (e Event) isRec() bool { return e.Rec >= 0 }
 
 func (in *intern) foreign(f *Foreign) string {
 	q := in.ostr(f.Queue)
@@ -298,7 +365,85 @@ func (inst *Instance) applyForeign(name string, f *Foreign) {
 	must(inst.Base.Update(context.Background(), pg))
 }
 
-// applyOwner removes the keys from the stored owner object and returns the object as it is afterwards.
+// applyTamper overwrites the stored PodGroup; returns it as the store holds it afterwards (nil: no such PodGroup).
+func (inst *Instance) applyTamper(name string, t *Tamper) *kaiv2.PodGroup {
+	pg := inst.PodGroup(name)
+	if pg == nil {
+		return nil
+	}
+	t.desc = nil
+	note := func(f string, a ...any) { t.desc = append(t.desc, fmt.Sprintf(f, a...)) }
+	if t.MinMember != nil {
+		pg.Spec.MinMember = *t.MinMember
+		note("minMember=%d", *t.MinMember)
+	}
+	if t.Prio != nil {
+		pg.Spec.PriorityClassName = *t.Prio
+		note("priorityClassName=%q", *t.Prio)
+	}
+	if t.Preempt != nil {
+		pg.Spec.Preemptibility = kaiv2.Preemptibility(*t.Preempt)
+		note("preemptibility=%q", *t.Preempt)
+	}
+	if t.Topology != nil {
+		pg.Spec.TopologyConstraint = kaiv2.TopologyConstraint{Topology: *t.Topology}
+		note("topology=%q", *t.Topology)
+	}
+	if t.DropOwners {
+		pg.OwnerReferences = nil
+		note("ownerReferences=none")
+	}
+	if t.OtherOwner {
+		pg.OwnerReferences = []metav1.OwnerReference{{APIVersion: "example.com/v1", Kind: "Widget", Name: "somebody-else", UID: "uid-else"}}
+		note("ownerReferences=other")
+	}
+	if t.AddSubGroup {
+		pg.Spec.SubGroups = append(pg.Spec.SubGroups, kaiv2.SubGroup{Name: "sneaked-in", MinMember: 2})
+		note("subGroups+1")
+	}
+	keysOf := func(m map[string]string, skip ...string) []string {
+		ks := []string{}
+	next:
+		for k := range m {
+			for _, x := range skip {
+				if k == x {
+					continue next
+				}
+			}
+			ks = append(ks, k)
+		}
+		sort.Strings(ks)
+		return ks
+	}
+	lk := keysOf(pg.Labels, inst.W.Cfg.QueueKey, inst.W.Cfg.NodePoolKey)
+	for i := 0; i < t.OverLabels && i < len(lk); i++ {
+		pg.Labels[lk[i]] = "tampered"
+		note("label:%s", lk[i])
+	}
+	for i := 0; i < t.DelLabels && i < len(lk); i++ {
+		delete(pg.Labels, lk[len(lk)-1-i])
+		note("-label:%s", lk[len(lk)-1-i])
+	}
+	ak := keysOf(pg.Annotations)
+	for i := 0; i < t.OverAnnots && i < len(ak); i++ {
+		pg.Annotations[ak[i]] = "tampered"
+		note("annot:%s", ak[i])
+	}
+	for i := 0; i < t.DelAnnots && i < len(ak); i++ {
+		delete(pg.Annotations, ak[len(ak)-1-i])
+		note("-annot:%s", ak[len(ak)-1-i])
+	}
+	must(inst.Base.Update(context.Background(), pg))
+	return inst.PodGroup(name)
+}
+
+func (inst *Instance) deletePodGroup(name string) {
+	if pg := inst.PodGroup(name); pg != nil {
+		must(inst.Base.Delete(context.Background(), pg))
+	}
+}
+
+// applyOwner edits the stored owner object and returns the object as it is afterwards.
 func (inst *Instance) applyOwner(cur Obj, c *OwnerChange) Obj {
 	o := cur
 	o.Labels = map[string]string{}
@@ -314,6 +459,12 @@ func (inst *Instance) applyOwner(cur Obj, c *OwnerChange) Obj {
 	}
 	for _, k := range c.DelAnns {
 		delete(o.Annots, k)
+	}
+	for k, v := range c.SetLabels {
+		o.Labels[k] = v
+	}
+	for k, v := range c.SetAnns {
+		o.Annots[k] = v
 	}
 	stored := o.unstructured()
 	must(inst.Base.Get(context.Background(), types.NamespacedName{Namespace: ns, Name: o.Name}, stored))
@@ -368,42 +519,149 @@ type runStats struct {
 	writesRepeat       []int // mutating calls of repeated reconciles (no foreign update since)
 	errors, reconciles int
 	firstBad           string // the first repeated reconcile that wrote: which pod, after which event
+	fresh              bool   // the run has a fresh companion run
+	stale              string // history clause (diagnostics): first PodGroup of the fresh run that the run's store lacks / differs from
+	frozenOwnerless    bool   // ... the same for a pod without owner reference (outside the clause)
 }
 
-// execRun plays the events on a fresh instance of the real code and returns the Coq term of the run.
-func execRun(in *intern, w *World, evs []Event) (string, runStats) {
+// recTerm reconciles pod i on inst and returns the event term together with what was observed.
+func recTerm(in *intern, inst *Instance, i int) (term string, calls Calls, failed bool, bpg, apg *kaiv2.PodGroup) {
+	before := map[string]kaiv2.PodGroup{}
+	for _, g := range inst.PodGroups() {
+		before[g.Name] = g
+	}
+	calls, failed = inst.Reconcile(i)
+	pod := inst.Pod(i)
+	var ann *string
+	if v, ok := pod.Annotations["pod-group-name"]; ok {
+		ann = &v
+		if g, ok := before[v]; ok {
+			bpg = &g
+		}
+		apg = inst.PodGroup(v)
+	}
+	term = fmt.Sprintf("(RecE %s, {| eo_writes := %s; eo_err := %s; eo_ann := %s; eo_before := %s; eo_after := %s |})",
+		u.Nat(i), u.Z(int64(calls.Total())), u.Bool(failed), in.ostr(ann), in.opg(bpg), in.opg(apg))
+	return
+}
+
+// finalTerms prints the store and the pods' annotations at the end of a run.
+func finalTerms(in *intern, inst *Instance) (string, string) {
+	final := []string{}
+	for _, g := range inst.PodGroups() {
+		g := g
+		final = append(final, u.Pair(in.S(g.Name), in.pg(&g)))
+	}
+	anns := []string{}
+	for i := range inst.W.Pods {
+		var ann *string
+		if v, ok := inst.Pod(i).Annotations["pod-group-name"]; ok {
+			ann = &v
+		}
+		anns = append(anns, in.ostr(ann))
+	}
+	return u.List(final), u.List(anns)
+}
+
+// ownedDiff mirrors Run/C18.v owned_agreeb (diagnostics for the label only): "" when hist agrees with fresh on
+// the grouper-owned part.
+func ownedDiff(cfg Config, fresh, hist *kaiv2.PodGroup) string {
+	if hist == nil {
+		return "missing"
+	}
+	f, h := fresh.Spec, hist.Spec
+	switch {
+	case f.MinMember != h.MinMember:
+		return fmt.Sprintf("minMember %d, fresh %d", h.MinMember, f.MinMember)
+	case f.PriorityClassName != h.PriorityClassName:
+		return fmt.Sprintf("priorityClassName %q, fresh %q", h.PriorityClassName, f.PriorityClassName)
+	case f.Preemptibility != h.Preemptibility:
+		return fmt.Sprintf("preemptibility %q, fresh %q", h.Preemptibility, f.Preemptibility)
+	case f.TopologyConstraint != h.TopologyConstraint:
+		return fmt.Sprintf("topology %v, fresh %v", h.TopologyConstraint, f.TopologyConstraint)
+	case len(f.SubGroups) != len(h.SubGroups):
+		return fmt.Sprintf("%d sub-groups, fresh %d", len(h.SubGroups), len(f.SubGroups))
+	case fmt.Sprint(fresh.OwnerReferences) != fmt.Sprint(hist.OwnerReferences):
+		return "ownerReferences differ"
+	}
+	for _, k := range sortedKeys(fresh.Labels) {
+		if k == cfg.QueueKey || k == cfg.NodePoolKey {
+			continue
+		}
+		if v, ok := hist.Labels[k]; !ok || v != fresh.Labels[k] {
+			return fmt.Sprintf("label %s=%q, fresh %q", k, v, fresh.Labels[k])
+		}
+	}
+	for _, k := range sortedKeys(fresh.Annotations) {
+		if v, ok := hist.Annotations[k]; !ok || v != fresh.Annotations[k] {
+			return fmt.Sprintf("annotation %s=%q, fresh %q", k, v, fresh.Annotations[k])
+		}
+	}
+	return ""
+}
+
+func sortedKeys(m map[string]string) []string {
+	ks := make([]string, 0, len(m))
+	for k := range m {
+		ks = append(ks, k)
+	}
+	sort.Strings(ks)
+	return ks
+}
+
+// execRun plays the events on a fresh instance of the real code and returns the Coq term of the run. A run
+// with other events than reconciles is followed by its FRESH run: the trailing reconciles on a second, new
+// store that holds the final owner objects and the pods as they were created.
+func execRun(in *intern, w *World, wk map[string]bool, evs []Event) (string, runStats) {
 	inst := NewInstance(w)
 	st := runStats{}
 	seen := map[int]bool{}
 	terms := []string{}
 	objs := append([]Obj{}, w.Objs...)
-	wk := worldKeys(w)
 	lastEv := "start"
-	for _, e := range evs {
-		if e.Own != nil {
+	lastHist := ""
+	pgOf := func(target int) string {
+		if v, ok := inst.Pod(target).Annotations["pod-group-name"]; ok {
+			return v
+		}
+		return ""
+	}
+	lastNonRec := -1
+	for idx, e := range evs {
+		if !e.isRec() && !(e.Tamper != nil && inst.PodGroup(pgOf(e.Target)) == nil) {
+			lastNonRec = idx
+		}
+		switch {
+		case e.Own != nil:
 			objs[e.Own.Idx] = inst.applyOwner(objs[e.Own.Idx], e.Own)
 			seen = map[int]bool{}
-			lastEv = fmt.Sprintf("owner(%s)-lost(labels=%v,annots=%v)", objs[e.Own.Idx].Kind, e.Own.DelLabels, e.Own.DelAnns)
+			lastEv = fmt.Sprintf("owner(%s)-edited(%s)", objs[e.Own.Idx].Kind, e.Own.describe())
+			lastHist = lastEv
 			terms = append(terms, fmt.Sprintf("(OwnE %s %s, {| eo_writes := 0%%Z; eo_err := false; eo_ann := None; eo_before := None; eo_after := None |})",
 				u.Nat(e.Own.Idx), in.obj(objs[e.Own.Idx])))
-			continue
-		}
-		if e.Rec >= 0 {
-			before := map[string]kaiv2.PodGroup{}
-			for _, g := range inst.PodGroups() {
-				before[g.Name] = g
+		case e.Tamper != nil:
+			name := pgOf(e.Target)
+			bpg := inst.PodGroup(name)
+			apg := inst.applyTamper(name, e.Tamper)
+			if apg == nil {
+				continue // nothing to overwrite (the pod's reconcile failed): not an event
 			}
-			calls, failed := inst.Reconcile(e.Rec)
-			pod := inst.Pod(e.Rec)
-			var ann *string
-			var bpg, apg *kaiv2.PodGroup
-			if v, ok := pod.Annotations["pod-group-name"]; ok {
-				ann = &v
-				if g, ok := before[v]; ok {
-					bpg = &g
-				}
-				apg = inst.PodGroup(v)
-			}
+			seen = map[int]bool{}
+			lastEv = "podgroup-overwritten(" + strings.Join(e.Tamper.desc, ",") + ")"
+			lastHist = lastEv
+			terms = append(terms, fmt.Sprintf("(TamE %s %s, {| eo_writes := 0%%Z; eo_err := false; eo_ann := None; eo_before := %s; eo_after := %s |})",
+				in.S(name), in.pg(apg), in.opg(bpg), in.opg(apg)))
+		case e.Delete:
+			name := pgOf(e.Target)
+			bpg := inst.PodGroup(name)
+			inst.deletePodGroup(name)
+			seen = map[int]bool{}
+			lastEv = "podgroup-deleted"
+			lastHist = lastEv
+			terms = append(terms, fmt.Sprintf("(DelE %s, {| eo_writes := 0%%Z; eo_err := false; eo_ann := None; eo_before := %s; eo_after := None |})",
+				in.S(name), in.opg(bpg)))
+		case e.isRec():
+			term, calls, failed, bpg, apg := recTerm(in, inst, e.Rec)
 			st.reconciles++
 			if failed {
 				st.errors++
@@ -430,13 +688,9 @@ func execRun(in *intern, w *World, evs []Event) (string, runStats) {
 				st.writesFirst = append(st.writesFirst, calls.Total())
 			}
 			seen[e.Rec] = true
-			terms = append(terms, fmt.Sprintf("(RecE %s, {| eo_writes := %s; eo_err := %s; eo_ann := %s; eo_before := %s; eo_after := %s |})",
-				u.Nat(e.Rec), u.Z(int64(calls.Total())), u.Bool(failed), in.ostr(ann), in.opg(bpg), in.opg(apg)))
-		} else {
-			name := ""
-			if v, ok := inst.Pod(e.Target).Annotations["pod-group-name"]; ok {
-				name = v
-			}
+			terms = append(terms, term)
+		default:
+			name := pgOf(e.Target)
 			bpg := inst.PodGroup(name)
 			inst.applyForeign(name, e.Foreign)
 			apg := inst.PodGroup(name)
@@ -444,24 +698,49 @@ func execRun(in *intern, w *World, evs []Event) (string, runStats) {
 				seen = map[int]bool{}
 			}
 			lastEv = "foreign(" + e.Foreign.describe() + ")"
+			lastHist = lastEv
 			terms = append(terms, fmt.Sprintf("(ForE %s %s, {| eo_writes := 0%%Z; eo_err := false; eo_ann := None; eo_before := %s; eo_after := %s |})",
 				in.S(name), in.foreign(e.Foreign), in.opg(bpg), in.opg(apg)))
 		}
 	}
-	final := []string{}
-	for _, g := range inst.PodGroups() {
-		g := g
-		final = append(final, u.Pair(in.S(g.Name), in.pg(&g)))
-	}
-	anns := []string{}
-	for i := range w.Pods {
-		var ann *string
-		if v, ok := inst.Pod(i).Annotations["pod-group-name"]; ok {
-			ann = &v
+	final, anns := finalTerms(in, inst)
+	fresh := "None"
+	if lastNonRec >= 0 {
+		st.fresh = true
+		wf := *w
+		wf.Objs = objs
+		finst := NewInstance(&wf)
+		fterms := []string{}
+		for _, e := range evs[lastNonRec+1:] {
+			if !e.isRec() {
+				continue // an overwrite that found no PodGroup
+			}
+			term, _, _, _, _ := recTerm(in, finst, e.Rec)
+			fterms = append(fterms, term)
 		}
-		anns = append(anns, in.ostr(ann))
+		ffinal, fanns := finalTerms(in, finst)
+		fresh = fmt.Sprintf("(Some {| fr_events := %s; fr_final := %s; fr_final_ann := %s |})", u.List(fterms), ffinal, fanns)
+		// diagnostics for the label
+		ownerless := map[string]bool{}
+		for i, p := range w.Pods {
+			if len(p.Owners) == 0 {
+				if v, ok := finst.Pod(i).Annotations["pod-group-name"]; ok {
+					ownerless[v] = true
+				}
+			}
+		}
+		for _, g := range finst.PodGroups() {
+			g := g
+			if d := ownedDiff(w.Cfg, &g, inst.PodGroup(g.Name)); d != "" {
+				if ownerless[g.Name] {
+					st.frozenOwnerless = true
+				} else if st.stale == "" {
+					st.stale = fmt.Sprintf("%s(%s)-after-%s", g.Name, d, lastHist)
+				}
+			}
+		}
 	}
-	return fmt.Sprintf("{| r_events := %s; r_final := %s; r_final_ann := %s |}", u.List(terms), u.List(final), u.List(anns)), st
+	return fmt.Sprintf("{| r_events := %s; r_final := %s; r_final_ann := %s; r_fresh := %s |}", u.List(terms), final, anns, fresh), st
 }
 
 // ---- generators ------------------------------------------------------------
@@ -685,9 +964,9 @@ var (
 	}
 )
 
-// worldKeys mirrors Run/C18.v world_keys: every label / annotation key some object of the world carries plus
-// the keys the grouper writes by itself.
-func worldKeys(w *World) map[string]bool {
+// worldKeys mirrors Run/C18.v world_keys: every label / annotation key some object of the world carries (the
+// owner objects as edited in any of the runs included) plus the keys the grouper writes by itself.
+func worldKeys(w *World, runs [][]Event) map[string]bool {
 	m := map[string]bool{w.Cfg.QueueKey: true, w.Cfg.NodePoolKey: true, "kai.scheduler/top-owner-metadata": true,
 		"user": true, "pod-group-name": true, "kai.scheduler/subgroup-name": true}
 	for _, o := range w.Objs {
@@ -704,6 +983,18 @@ func worldKeys(w *World) map[string]bool {
 		}
 		for k := range p.Annots {
 			m[k] = true
+		}
+	}
+	for _, evs := range runs {
+		for _, e := range evs {
+			if e.Own != nil {
+				for k := range e.Own.SetLabels {
+					m[k] = true
+				}
+				for k := range e.Own.SetAnns {
+					m[k] = true
+				}
+			}
 		}
 	}
 	return m
@@ -874,6 +1165,167 @@ func genOwnerChange(r *u.Rng, w *World) *OwnerChange {
 	return c
 }
 
+// genOwnerEdit edits an owner object so that what the grouper computes from it CHANGES: priority class,
+// preemptibility, queue / project / user labels, copied labels and annotations, topology annotations are set to
+// new values (mostly on the top owner, whose metadata the PodGroup copies; priority class and preemptibility are
+// read from every owner of the chain); sometimes keys are removed in the same edit. nil for worlds without owner.
+func genOwnerEdit(r *u.Rng, w *World) *OwnerChange {
+	if len(w.Objs) == 0 {
+		return nil
+	}
+	idx := len(w.Objs) - 1
+	if r.Chance(1, 3) {
+		idx = r.Intn(len(w.Objs))
+	}
+	o := w.Objs[idx]
+	c := &OwnerChange{Idx: idx, SetLabels: map[string]string{}, SetAnns: map[string]string{}}
+	other := func(cur string, vals []string) string { // a value different from the current one
+		for tries := 0; tries < 8; tries++ {
+			if v := u.Pick(r, vals); v != cur {
+				return v
+			}
+		}
+		return cur + "-edited"
+	}
+	type choice struct {
+		annot bool
+		key   string
+		vals  []string
+	}
+	choices := []choice{
+		{false, "priorityClassName", []string{"train", "inference", "build", "high", "nonexistent"}},
+		{false, "priorityClassName", []string{"train", "inference", "build", "high"}},
+		{false, "kai.scheduler/preemptibility", []string{"preemptible", "non-preemptible", "bogus"}},
+		{false, w.Cfg.QueueKey, []string{"team-a", "team-b", "team-c"}},
+		{false, "project", []string{"proj1", "proj2", "proj3"}},
+		{false, "user", []string{"alice", "bob", "dave"}},
+		{false, "app", []string{"web", "trainer", "api"}},
+		{false, "tier", []string{"gold", "silver"}},
+		{true, "kai.scheduler/topology", []string{"topo-1", "topo-2"}},
+		{true, "kai.scheduler/topology-required-placement", []string{"rack", "zone"}},
+		{true, "kai.scheduler/topology-preferred-placement", []string{"zone", "block"}},
+		{true, "note", []string{"x", "y", "edited by hand"}},
+		{true, "user", []string{"carol", "erin"}},
+		{true, "kai.scheduler/top-owner-metadata", []string{"overridden-by-owner", "overridden-again"}},
+	}
+	for i, n := 0, r.Range(1, 3); i < n; i++ {
+		ch := u.Pick(r, choices)
+		if ch.annot {
+			c.SetAnns[ch.key] = other(o.Annots[ch.key], ch.vals)
+		} else {
+			c.SetLabels[ch.key] = other(o.Labels[ch.key], ch.vals)
+		}
+	}
+	if r.Chance(1, 4) {
+		if d := genOwnerChange(r, w); d != nil && d.Idx == idx {
+			for _, k := range d.DelLabels {
+				if _, set := c.SetLabels[k]; !set {
+					c.DelLabels = append(c.DelLabels, k)
+				}
+			}
+			for _, k := range d.DelAnns {
+				if _, set := c.SetAnns[k]; !set {
+					c.DelAnns = append(c.DelAnns, k)
+				}
+			}
+		}
+	}
+	return c
+}
+
+// genTamper: one to three grouper-owned fields of the PodGroup are overwritten.
+func genTamper(r *u.Rng) *Tamper {
+	t := &Tamper{}
+	for i, n := 0, r.Range(1, 3); i < n; i++ {
+		switch r.Intn(10) {
+		case 0, 1:
+			t.MinMember = ptr(u.Pick(r, []int32{0, 2, 3, 7}))
+		case 2, 3:
+			t.Prio = ptr(u.Pick(r, []string{"build", "high", "nonexistent", ""}))
+		case 4:
+			t.Preempt = ptr(u.Pick(r, []string{"preemptible", "non-preemptible", ""}))
+		case 5:
+			t.Topology = ptr(u.Pick(r, []string{"topo-x", ""}))
+		case 6:
+			if r.Bool() {
+				t.DropOwners = true
+			} else {
+				t.OtherOwner = true
+			}
+		case 7:
+			t.AddSubGroup = true
+		case 8:
+			if r.Bool() {
+				t.OverLabels = r.Range(1, 2)
+			} else {
+				t.DelLabels = r.Range(1, 2)
+			}
+		default:
+			if r.Bool() {
+				t.OverAnnots = r.Range(1, 2)
+			} else {
+				t.DelAnnots = 1
+			}
+		}
+	}
+	return t
+}
+
+// genHistEvent: one event after which the PodGroup has to be brought back to the function of the workload.
+func genHistEvent(r *u.Rng, w *World, kind string) Event {
+	n := len(w.Pods)
+	switch kind {
+	case "edit":
+		if oc := genOwnerEdit(r, w); oc != nil {
+			return Event{Rec: -1, Own: oc}
+		}
+		return Event{Rec: -1, Target: r.Intn(n), Tamper: genTamper(r)}
+	case "tamper":
+		return Event{Rec: -1, Target: r.Intn(n), Tamper: genTamper(r)}
+	default:
+		return Event{Rec: -1, Target: r.Intn(n), Delete: true}
+	}
+}
+
+var histKinds = []string{"edit", "tamper", "delete"}
+
+// histRuns: every pod is reconciled (all of them assigned); then the owner is edited / the PodGroup
+// overwritten / deleted (kinds, one run each; a last run mixes several such events with partial reconciles and
+// foreign updates); then every pod is reconciled again, in any order, twice.
+func histRuns(r *u.Rng, w *World, kinds []string, mixed bool) [][]Event {
+	n := len(w.Pods)
+	perms := permutations(n)
+	anyOrder := func() []Event { return recs(perms[r.Intn(len(perms))]...) }
+	runs := [][]Event{}
+	for _, kind := range kinds {
+		evs := anyOrder()
+		if r.Chance(1, 3) {
+			evs = append(evs, anyOrder()...)
+		}
+		evs = append(evs, genHistEvent(r, w, kind))
+		evs = append(evs, anyOrder()...)
+		evs = append(evs, anyOrder()...)
+		runs = append(runs, evs)
+	}
+	if mixed {
+		evs := anyOrder()
+		for i, m := 0, r.Range(2, 4); i < m; i++ {
+			if r.Chance(1, 4) {
+				evs = append(evs, Event{Rec: -1, Target: r.Intn(n), Foreign: genForeign(r, w.Cfg)})
+			} else {
+				evs = append(evs, genHistEvent(r, w, u.Pick(r, histKinds)))
+			}
+			if r.Bool() {
+				evs = append(evs, recs(r.Intn(n))...)
+			}
+		}
+		evs = append(evs, anyOrder()...)
+		evs = append(evs, anyOrder()...)
+		runs = append(runs, evs)
+	}
+	return runs
+}
+
 func permutations(n int) [][]int {
 	if n == 0 {
 		return [][]int{{}}
@@ -948,6 +1400,10 @@ func groupRuns(r *u.Rng, w *World, thorough bool) [][]Event {
 			if oc := genOwnerChange(r, w); oc != nil && r.Chance(1, 2) {
 				evs = append(evs, Event{Rec: -1, Own: oc})
 			}
+			// ... the owner is edited, the PodGroup overwritten or deleted
+			if r.Chance(1, 2) {
+				evs = append(evs, genHistEvent(r, w, u.Pick(r, histKinds)))
+			}
 			again := perms[r.Intn(len(perms))]
 			evs = append(evs, recs(again...)...)
 		}
@@ -959,7 +1415,7 @@ func groupRuns(r *u.Rng, w *World, thorough bool) [][]Event {
 // idemRuns: each pod twice in a row; everybody then everybody again; foreign update then twice; the PodGroup
 // labelled / annotated by another actor, then everybody several times, the keys changed / removed, everybody
 // again; an owner loses keys after the PodGroup was created, then everybody twice.
-func idemRuns(r *u.Rng, w *World) [][]Event {
+func idemRuns(r *u.Rng, w *World, thorough bool) [][]Event {
 	n := len(w.Pods)
 	runs := [][]Event{}
 	runs = append(runs, recs(0, 0, 0))
@@ -998,6 +1454,9 @@ func idemRuns(r *u.Rng, w *World) [][]Event {
 		evs = append(evs, recs(all...)...)
 		runs = append(runs, evs)
 	}
+	// history independence: all pods assigned, then an owner edit that changes what is computed / an overwritten
+	// PodGroup / a deleted PodGroup, then every pod again (the repeated reconciles must also be silent)
+	runs = append(runs, histRuns(r, w, histKinds, true)...)
 	return runs
 }
 
@@ -1011,9 +1470,68 @@ type emitter struct {
 	out      *u.Out
 	thorough bool
 	extra    [][]Event // fixed runs added to the CkIdem case of the next world
+	jobs     []func() *sink
+	planned  int // cases planned so far (two per world)
 }
 
+// sink records what a world's execution reports, so that worlds can be executed in parallel and reported in order.
+type sink struct{ ops []func(o *u.Out) }
+
+func (k *sink) Count(key string)         { k.ops = append(k.ops, func(o *u.Out) { o.Count(key) }) }
+func (k *sink) CountN(key string, n int) { k.ops = append(k.ops, func(o *u.Out) { o.CountN(key, n) }) }
+func (k *sink) Add(term, label string)   { k.ops = append(k.ops, func(o *u.Out) { o.Add(term, label) }) }
+func (k *sink) NonTrivial(fp string)     { k.ops = append(k.ops, func(o *u.Out) { o.NonTrivial(fp) }) }
+func (k *sink) Sample(v any)             { k.ops = append(k.ops, func(o *u.Out) { o.Sample(v) }) }
+
+// flush executes the planned worlds on a pool of workers (every run has its own API store) and reports them in
+// the order they were planned.
+func (em *emitter) flush() {
+	res := make([]*sink, len(em.jobs))
+	var wg sync.WaitGroup
+	next := int64(-1)
+	workers := runtime.GOMAXPROCS(0)
+	if workers > 8 {
+		workers = 8
+	}
+	for wkr := 0; wkr < workers; wkr++ {
+		wg.Add(1)
+		go func() {
+			defer wg.Done()
+			for {
+				i := int(atomic.AddInt64(&next, 1))
+				if i >= len(em.jobs) {
+					return
+				}
+				res[i] = em.jobs[i]()
+			}
+		}()
+	}
+	wg.Wait()
+	for _, k := range res {
+		for _, op := range k.ops {
+			op(em.out)
+		}
+	}
+	em.jobs = nil
+}
+
+// emitWorld generates the runs of the world's two cases (consuming r) and plans their execution.
 func (em *emitter) emitWorld(r *u.Rng, origin string, sh shape, w *World, defect string) {
+	checks := []string{"CkGroup", "CkIdem"}
+	runsOf := map[string][][]Event{
+		"CkGroup": groupRuns(r, w, em.thorough),
+	}
+	runsOf["CkIdem"] = append(idemRuns(r, w, em.thorough), em.extra...)
+	em.planned += len(checks)
+	thorough := em.thorough
+	em.jobs = append(em.jobs, func() *sink {
+		k := &sink{}
+		execWorld(k, thorough, origin, sh, w, defect, checks, runsOf)
+		return k
+	})
+}
+
+func execWorld(out *sink, thorough bool, origin string, sh shape, w *World, defect string, checks []string, runsOf map[string][][]Event) {
 	staleSG := false
 	for _, p := range w.Pods {
 		if _, ok := p.Labels["kai.scheduler/subgroup-name"]; ok {
@@ -1021,31 +1539,40 @@ func (em *emitter) emitWorld(r *u.Rng, origin string, sh shape, w *World, defect
 		}
 	}
 	desc := fmt.Sprintf("%s shape=%s pods=%d defect=%s cm=%d nodepoolkey=%q forbidden=%v stale-subgroup-label=%v", origin, sh.name, len(w.Pods), defect, w.Cfg.CMState, w.Cfg.NodePoolKey, w.Forbidden, staleSG)
-	for _, check := range []string{"CkGroup", "CkIdem"} {
+	for _, check := range checks {
 		in := newIntern()
-		var runs [][]Event
-		if check == "CkGroup" {
-			runs = groupRuns(r, w, em.thorough)
-		} else {
-			runs = append(idemRuns(r, w), em.extra...)
-		}
+		runs := runsOf[check]
 		rterms := []string{}
 		agg := runStats{}
+		wk := worldKeys(w, runs)
 		for _, evs := range runs {
 			for _, e := range evs {
 				switch {
+				case e.Own != nil && e.Own.edits():
+					out.Count("event:owner-edited")
 				case e.Own != nil:
-					em.out.Count("event:owner-keys-removed")
-				case e.Foreign != nil && quietForeign(worldKeys(w), e.Foreign):
-					em.out.Count("event:foreign-keys-only")
+					out.Count("event:owner-keys-removed")
+				case e.Tamper != nil:
+					out.Count("event:podgroup-overwritten")
+				case e.Delete:
+					out.Count("event:podgroup-deleted")
+				case e.Foreign != nil && quietForeign(wk, e.Foreign):
+					out.Count("event:foreign-keys-only")
 				case e.Foreign != nil && len(e.Foreign.Labels)+len(e.Foreign.Annots) > 0:
-					em.out.Count("event:foreign-fields+keys")
+					out.Count("event:foreign-fields+keys")
 				case e.Foreign != nil:
-					em.out.Count("event:foreign-fields")
+					out.Count("event:foreign-fields")
 				}
 			}
-			t, st := execRun(in, w, evs)
+			t, st := execRun(in, w, wk, evs)
 			rterms = append(rterms, t)
+			if st.fresh {
+				out.Count("runs-with-fresh-companion")
+			}
+			if agg.stale == "" {
+				agg.stale = st.stale
+			}
+			agg.frozenOwnerless = agg.frozenOwnerless || st.frozenOwnerless
 			agg.idem.merge(st.idem)
 			agg.writesFirst = append(agg.writesFirst, st.writesFirst...)
 			agg.writesRepeat = append(agg.writesRepeat, st.writesRepeat...)
@@ -1058,41 +1585,53 @@ func (em *emitter) emitWorld(r *u.Rng, origin string, sh shape, w *World, defect
 		term := fmt.Sprintf("{| k_cfg := %s; k_cluster := %s; k_pods := %s; k_chain := %s; k_check := %s; k_runs := %s |}",
 			in.config(w.Cfg, w.Forbidden), u.ListOf(w.Objs, in.obj), u.ListOf(w.Pods, in.pod), chainTerm(in, sh), check, u.List(rterms))
 		label := fmt.Sprintf("%s check=%s", desc, check)
+		switch {
+		case agg.stale != "":
+			label += " history=STALE:" + agg.stale
+			out.Count("history:STALE")
+		case agg.frozenOwnerless:
+			label += " history=ok(ownerless-pod-frozen)"
+			out.Count("history:ok(ownerless-pod-frozen)")
+		default:
+			label += " history=ok"
+			out.Count("history:ok")
+		}
 		if check == "CkIdem" {
 			label += fmt.Sprintf(" repeat-writes=%v idem=%s", sortedCopy(agg.writesRepeat), agg.idem)
 			if agg.firstBad != "" {
 				label += " first=" + agg.firstBad
 			}
-			em.out.Count("idem:" + agg.idem.String())
+			out.Count("idem:" + agg.idem.String())
 			for _, x := range agg.writesRepeat {
-				em.out.Count(fmt.Sprintf("repeat-reconcile-writes:%d", x))
+				out.Count(fmt.Sprintf("repeat-reconcile-writes:%d", x))
 			}
 		} else {
 			for _, x := range agg.writesFirst {
-				em.out.Count(fmt.Sprintf("first-reconcile-writes:%d", x))
+				out.Count(fmt.Sprintf("first-reconcile-writes:%d", x))
 			}
 		}
-		em.out.Add(in.Wrap(term), label)
-		em.out.Count("check:" + check)
-		em.out.Count("shape:" + sh.name)
-		em.out.Count("origin:" + origin)
-		em.out.Count(fmt.Sprintf("pods:%d", len(w.Pods)))
-		em.out.CountN("reconciles", agg.reconciles)
-		em.out.CountN("reconcile-errors", agg.errors)
+		out.Add(in.Wrap(term), label)
+		out.Count("check:" + check)
+		out.Count("shape:" + sh.name)
+		out.Count("origin:" + origin)
+		out.Count(fmt.Sprintf("pods:%d", len(w.Pods)))
+		out.CountN("reconciles", agg.reconciles)
+		out.CountN("reconcile-errors", agg.errors)
 		if defect != "" {
-			em.out.Count("defect:" + defect)
+			out.Count("defect:" + defect)
 		}
 		// non-trivial: at least one reconcile succeeded and (two or more pods, or a repeated reconcile, or a foreign update)
 		if agg.errors < agg.reconciles {
-			em.out.NonTrivial(fmt.Sprintf("%s|%d|%s|%s|%d|%v", sh.name, len(w.Pods), defect, check, w.Cfg.CMState, w.Cfg.NodePoolKey != ""))
+			out.NonTrivial(fmt.Sprintf("%s|%d|%s|%s|%d|%v", sh.name, len(w.Pods), defect, check, w.Cfg.CMState, w.Cfg.NodePoolKey != ""))
 		}
-		em.out.Sample(map[string]any{"label": label, "world": w, "runs": len(runs)})
+		out.Sample(map[string]any{"label": label, "world": w, "runs": len(runs)})
 	}
 }
 
 // Run generates n cases (two per world) from seed and writes them under dir.
 func Run(dir string, seed uint64, n int, tier string) error {
 	out := u.NewOut(dir, "C18", "KaiV.Run.C18", "case", 20)
+	out.Flags = true // observation flag 100 (Run/C18.v case_flags)
 	em := &emitter{out: out, thorough: tier == "thorough"}
 	root := u.NewRng(seed)
 	maxPods := 3
@@ -1178,8 +1717,52 @@ func Run(dir string, seed uint64, n int, tier string) error {
 		em.emitWorld(cr, "corpus-foreign-keys", shapes[3], w, "")
 		em.extra = nil
 	}
+	{
+		// history independence (theorems C18_history_independent, C18_early_return_depends_on_history; the scenario
+		// of seeded/C18-3): StatefulSet team-a/train with three pods, all assigned; then (a) the owner gets a
+		// priority class, a preemptibility, a label and a topology constraint, (b) minMember / priorityClassName /
+		// owner references / a computed annotation of the PodGroup are overwritten, (c) the PodGroup is deleted,
+		// (d) all of it in one run; each time every pod is reconciled again twice, in two orders
+		sts := Obj{Group: "apps", Version: "v1", Kind: "StatefulSet", Name: "train", UID: "uid-train",
+			Labels: map[string]string{queueKey: "research", "app": "trainer"}, Annots: map[string]string{"note": "x"}}
+		ref := Ref{"apps", "v1", "StatefulSet", "train", "uid-train"}
+		w := &World{Cfg: Config{QueueKey: queueKey, NodePoolKey: nodePoolKey, PrioClasses: []string{"train", "inference", "build"}},
+			Objs: []Obj{sts},
+			Pods: []Pod{{Name: "train-0", UID: "u-t0", Owners: []Ref{ref}}, {Name: "train-1", UID: "u-t1", Owners: []Ref{ref}},
+				{Name: "train-2", UID: "u-t2", Owners: []Ref{ref}}}}
+		edit := Event{Rec: -1, Own: &OwnerChange{Idx: 0,
+			SetLabels: map[string]string{"priorityClassName": "inference", "kai.scheduler/preemptibility": "non-preemptible", "tier": "gold", "app": "api"},
+			SetAnns:   map[string]string{"kai.scheduler/topology": "topo-1", "kai.scheduler/topology-required-placement": "rack", "note": "edited by hand"}}}
+		tamper := Event{Rec: -1, Target: 1, Tamper: &Tamper{MinMember: ptr(int32(7)), Prio: ptr("build"), DropOwners: true, OverAnnots: 1, DelLabels: 1}}
+		del := Event{Rec: -1, Target: 2, Delete: true}
+		again := append(recs(2, 1, 0), recs(0, 1, 2)...)
+		mk := func(hs ...Event) []Event {
+			evs := recs(0, 1, 2)
+			evs = append(evs, hs...)
+			return append(evs, again...)
+		}
+		all := recs(0, 1, 2)
+		all = append(all, edit)
+		all = append(all, recs(1)...)
+		all = append(all, tamper)
+		all = append(all, recs(0)...)
+		all = append(all, del, Event{Rec: -1, Own: &OwnerChange{Idx: 0, SetLabels: map[string]string{"priorityClassName": "build"}, DelLabels: []string{"tier"}}})
+		all = append(all, again...)
+		em.extra = [][]Event{mk(edit), mk(tamper), mk(del), all}
+		em.emitWorld(cr, "corpus-history", shapes[3], w, "")
+		em.extra = nil
+		// the same three for an owner-less pod: outside the clause (the code skips a pod without owner reference once it
+		// carries a pod-group annotation, C18_ownerless_pod_frozen); counted by observation flag 100
+		wb := &World{Cfg: Config{QueueKey: queueKey, NodePoolKey: nodePoolKey, PrioClasses: []string{"train"}},
+			Pods: []Pod{{Name: "solo", UID: "u-solo"}}}
+		em.extra = [][]Event{
+			{{Rec: 0}, {Rec: -1, Target: 0, Delete: true}, {Rec: 0}, {Rec: 0}},
+			{{Rec: 0}, {Rec: -1, Target: 0, Tamper: &Tamper{MinMember: ptr(int32(7))}}, {Rec: 0}, {Rec: 0}}}
+		em.emitWorld(cr, "corpus-history", shapes[0], wb, "")
+		em.extra = nil
+	}
 	defects := []string{"uid-mismatch", "missing-owner", "two-owners-above", "forbidden-top", "forbidden-direct", "user-annotation", "two-owner-refs"}
-	for i := 0; out.Len() < n; i++ {
+	for i := 0; em.planned < n; i++ {
 		r := root.Fork(uint64(i))
 		sh := shapes[i%len(shapes)]
 		if r.Chance(1, 3) {
@@ -1205,6 +1788,7 @@ func Run(dir string, seed uint64, n int, tier string) error {
 		}
 		em.emitWorld(r, origin, sh, w, defect)
 	}
-	out.Stats["rule"] = "worlds drawn from one splitmix64 stream: owner-chain shape (bare pod, Deployment>ReplicaSet, Job, StatefulSet, ReplicaSet, CRD, 6 skip-top-owner chains, pod-owned pod) x 1-3 sibling pods x labels/annotations/priority classes/defaults config map; every fifth world malformed (stale uid, missing owner, two owners, forbidden kinds, user-provided annotation); after a fixed corpus (every shape with 2 pods + the witnesses of the three repaired findings: owner without labels, Workflow-owned pod, stale sub-group label, forbidden direct owner, owners carrying a pod-group-name annotation + a StatefulSet whose PodGroup the scheduler stamps with kai.scheduler/last-start-timestamp / kai.scheduler/stale-podgroup-timestamp and an administrator labels, and whose owner then loses a label and an annotation); 1 world in 25 gives its pods a stale sub-group label. Events: reconcile pod i; foreign update of a PodGroup = queue / markUnschedulable / schedulingBackoff / node-pool label / queue label and/or labels and annotations of other actors set, changed, removed (the scheduler's two timestamp annotations, admin keys admin.example.com/note, admin.example.com/cost-center, team-owner; 1 in 10 overwrites a key the grouper computes); an owner object loses one or two label / annotation keys after the PodGroup was created. Each world gives a CkGroup case (all reconcile orders, a run with repeats, runs with foreign updates and owner changes between reconciles) and a CkIdem case (repeated reconciles; after a foreign update; after keys of other actors were put on / changed on / removed from the PodGroup, where also the FIRST reconcile must be silent; after an owner lost keys). non-trivial = at least one reconcile succeeded; distinct by (shape, pods, defect, check, config-map state, node-pool key configured)"
+	em.flush()
+	out.Stats["rule"] = "worlds drawn from one splitmix64 stream: owner-chain shape (bare pod, Deployment>ReplicaSet, Job, StatefulSet, ReplicaSet, CRD, 6 skip-top-owner chains, pod-owned pod) x 1-3 sibling pods x labels/annotations/priority classes/defaults config map; every fifth world malformed (stale uid, missing owner, two owners, forbidden kinds, user-provided annotation); after a fixed corpus (every shape with 2 pods + the witnesses of the three repaired findings: owner without labels, Workflow-owned pod, stale sub-group label, forbidden direct owner, owners carrying a pod-group-name annotation + a StatefulSet whose PodGroup the scheduler stamps with kai.scheduler/last-start-timestamp / kai.scheduler/stale-podgroup-timestamp and an administrator labels, and whose owner then loses a label and an annotation + the history world: StatefulSet with three assigned pods whose owner then gets a priority class / preemptibility / labels / topology constraint, whose PodGroup is overwritten (minMember, priorityClassName, owner references, a computed annotation, a computed label removed), whose PodGroup is deleted, and all of it in one run + an owner-less pod whose PodGroup is deleted / overwritten); 1 world in 25 gives its pods a stale sub-group label. Events: reconcile pod i; foreign update of a PodGroup = queue / markUnschedulable / schedulingBackoff / node-pool label / queue label and/or labels and annotations of other actors set, changed, removed (the scheduler's two timestamp annotations, admin keys admin.example.com/note, admin.example.com/cost-center, team-owner; 1 in 10 overwrites a key the grouper computes); an owner object loses one or two label / annotation keys after the PodGroup was created; an owner object is EDITED so that computed values change (priorityClassName, kai.scheduler/preemptibility, queue, project, user, app, tier labels; topology, note, user, top-owner-metadata annotations; mostly the top owner, 1 in 3 any owner of the chain); grouper-owned fields of the stored PodGroup are overwritten (minMember, priorityClassName, preemptibility, topology constraint, owner references dropped or replaced, a sub-group added, labels / annotations it carries overwritten or removed); the PodGroup is deleted. Each world gives a CkGroup case (all reconcile orders, a run with repeats, runs with foreign updates, owner changes, edits, overwritten / deleted PodGroups between reconciles) and a CkIdem case (repeated reconciles; after a foreign update; after keys of other actors were put on / changed on / removed from the PodGroup, where also the FIRST reconcile must be silent; after an owner lost keys; history runs: every pod assigned, then an owner edit / an overwritten PodGroup / a deleted PodGroup (one run each) and a run mixing several of them with partial reconciles and foreign updates, then every pod again in any order, twice). Every run with another event than a reconcile comes with its FRESH run: the trailing reconciles executed by the real reconciler on a second, new store holding the final owner objects and the pods as created. non-trivial = at least one reconcile succeeded; distinct by (shape, pods, defect, check, config-map state, node-pool key configured)"
 	return out.Flush()
 }
